@@ -109,6 +109,17 @@ Corollary C17_refines_spec_initial : forall h st, pre kid h st -> news_ok kid ar
   exists specs' stk', srun' h (gs0, [], []) = Some (fst s', specs', stk') /\ map fst stk' = st.
 Proof. exact refines_spec_initial. Qed.
 
+(* a REFUSED enter (the model's step = None; all-or-nothing is enforced by the translator, which rejects any raise that
+   follows an assignment on its path): the block is not run and no exit happens, and the history h1; refused Enter i; h2
+   still leaves every slot and every pre-existing object exactly as it was *)
+Theorem C17_refused_enter : forall h1 i h2, bal' h1 -> bal' h2 -> forall g objs s1 s2,
+  wfobjs' objs -> run' h1 (g, objs) = Some s1 -> step' s1 (Enter kid i) = None -> run' h2 s1 = Some s2 ->
+  fst s2 = g /\ exists ext, snd s2 = objs ++ ext.
+Proof.
+  exact (refused_enter_generic cid gs get set get_set_eq get_set_neq set_get set_set set_comm
+           penter pexit restore_law kid new new_nodup).
+Qed.
+
 (* entering an object leaves its later enters (re-entry while active, re-use after exit) with the same effect *)
 Theorem C17_reenter_same_effect : forall c sv o sv1 o1 sv' sv2 o2,
   penter c sv o = Some (sv1, o1) -> penter c sv' o1 = Some (sv2, o2) -> exists o2', penter c sv' o = Some (sv2, o2').
